@@ -143,8 +143,8 @@ Print Assumptions C02_casketfile_never_served.
 (* Everything a listing names is a child of the cleaned directory inside the tree and is not
    hidden. *)
 Theorem C02_listing_inside_root_never_hidden :
-  forall fs hide pages prefix confs m req ae archive kids,
-  browse fs hide pages prefix confs m req ae archive = Listing kids ->
+  forall fs hide pages prefix confs m req ae archive limit kids,
+  browse fs hide pages prefix confs m req ae archive limit = Listing kids ->
   forall k, In k kids ->
     In k fs /\ is_child (jail req) (n_path k) = true /\ is_hidden fs hide k = false.
 Proof. exact listing_sound. Qed.
@@ -152,7 +152,7 @@ Print Assumptions C02_listing_inside_root_never_hidden.
 
 Example C02_listing_nonvacuous :
   match browse fixture_fs gen_c02_hide gen_default_index_pages [SLASH] [{| b_scope := [SLASH]; b_types := [] |}]
-               0 (bs "//dir/../") [] [] with
+               0 (bs "//dir/../") [] [] [] with
   | Listing kids => existsb (fun k => beq (n_path k) (bs "/a.txt")) kids &&
                     negb (existsb (fun k => beq (n_path k) (bs "/Casketfile")) kids)
   | _ => false
@@ -163,8 +163,8 @@ Proof. vm_compute. reflexivity. Qed.
 (* Every member of an archive is a node of the tree strictly below the cleaned directory
    (in particular lexically inside it, hence inside the root). *)
 Theorem C02_archive_inside_root :
-  forall fs hide pages prefix confs m req ae archive ms,
-  browse fs hide pages prefix confs m req ae archive = Archive ms ->
+  forall fs hide pages prefix confs m req ae archive limit ms,
+  browse fs hide pages prefix confs m req ae archive limit = Archive ms ->
   forall k, In k ms ->
     In k fs /\ is_desc (jail req) (n_path k) = true /\ has_prefix (n_path k) (jail req) = true.
 Proof. exact archive_inside_root. Qed.
@@ -175,8 +175,8 @@ Print Assumptions C02_archive_inside_root.
    member lies below a hidden directory inside the archived one — the walker applies the IsHidden
    test of the listing to every entry and does not descend into a hidden directory. *)
 Theorem C02_archive_never_hidden :
-  forall fs hide pages prefix confs m req ae archive ms,
-  browse fs hide pages prefix confs m req ae archive = Archive ms ->
+  forall fs hide pages prefix confs m req ae archive limit ms,
+  browse fs hide pages prefix confs m req ae archive limit = Archive ms ->
   forall k, In k ms ->
     is_hidden fs hide k = false /\
     (forall a, In a fs -> n_dir a = true -> is_desc (jail req) (n_path a) = true ->
@@ -186,7 +186,7 @@ Print Assumptions C02_archive_never_hidden.
 
 Example C02_archive_never_hidden_nonvacuous :
   match browse fixture_fs gen_c02_hide gen_default_index_pages [SLASH] [{| b_scope := [SLASH]; b_types := gen_archive_types |}]
-               0 [SLASH] [] (bs "zip") with
+               0 [SLASH] [] (bs "zip") [] with
   | Archive ms => map (fun p => existsb (fun k => beq (n_path k) (bs p)) ms)
                       ["/a.txt"; "/dir/sub/d.txt"; "/Casketfile"; "/links/hard-casket"; "/secret.txt"; "/hsib.txt.gz";
                        "/hdir"; "/hdir/in.txt"]%string
@@ -222,16 +222,16 @@ Proof. vm_compute. reflexivity. Qed.
    the static file server's, or the static file server's behind it) stays on the origin, however
    the request path is spelled. *)
 Theorem C02_browse_redirect_same_origin :
-  forall fs hide pages prefix confs m req ae archive code loc,
+  forall fs hide pages prefix confs m req ae archive limit code loc,
   rooted prefix -> rooted req ->
-  browse fs hide pages prefix confs m req ae archive = Redirect code loc ->
+  browse fs hide pages prefix confs m req ae archive limit = Redirect code loc ->
   one_slash loc = true /\ same_origin loc = true.
 Proof. exact browse_redirect. Qed.
 Print Assumptions C02_browse_redirect_same_origin.
 
 Example C02_browse_redirect_nonvacuous :
   map (fun p => browse fixture_fs gen_c02_hide gen_default_index_pages [SLASH] [{| b_scope := [SLASH]; b_types := [] |}]
-                       0 (bs p) [] [])
+                       0 (bs p) [] [] [])
       ["/x/..//dir/sub"; "//evil.example/.."; "///evil.example/../dir"; "/\evil.example/../dir"]%string
   = [Redirect 301 (bs "/dir/sub/"); Redirect 301 (bs "/"); Redirect 301 (bs "/dir/"); Redirect 301 (bs "/dir/")].
 Proof. vm_compute. reflexivity. Qed.
@@ -262,7 +262,7 @@ Proof. exact site_sound. Qed.
 Print Assumptions C02_site_sound.
 
 Example C02_site_sound_nonvacuous :
-  map (fun p => match handle (mksite (bs "/srv/www") (bs "/srv/www/Casketfile") [SLASH] [SLASH] gen_archive_types) (mkreq 0 (bs p) (bs "br") []) with
+  map (fun p => match handle (mksite (bs "/srv/www") (bs "/srv/www/Casketfile") [SLASH] [SLASH] gen_archive_types) (mkreq 0 (bs p) (bs "br") [] []) with
                 | Serve n _ => n_id n | Listing k => 1000 + N.of_nat (length k) | Redirect c _ => c
                 | Status c => c | Archive _ => 2000 end)
       ["/a.txt"; "/dir/"; "/dir"; "/secret.txt"; "/Casketfile/."]
